@@ -34,6 +34,8 @@ const (
 type c07Model struct {
 	St        string // idle active opensent openconfirm established
 	AdminDown bool
+	AdminPfx  bool // administratively stopped by the prefix limit (Cease 6/1): stays Idle until enabled
+	Routes2   bool // the second prefix is in the Adj-RIB-In
 	Deleted   bool
 	Conn      bool          // the FSM holds the bot's current connection
 	Idle      time.Duration // remaining idle-hold time (St==idle, admin up)
@@ -57,6 +59,11 @@ type c07Scenario struct {
 	ribBefore       string
 	pruned          bool
 	treatAsWithdraw bool
+	// harness-side clocks (virtual time of the bot's last messages on the current connection):
+	// part of the state key, because they determine the daemon's timers independently of the
+	// reference machine's own reset rules (a key built only from the model's timers merges states
+	// that a wrong reset rule in the daemon would tell apart)
+	tConn, tLastKA, tLastUpd time.Duration
 }
 
 func init() {
@@ -72,6 +79,9 @@ func (sc *c07Scenario) Setup(w *simWorld) {
 			n.Timers.Config.HoldTime = c07Hold
 			n.Timers.Config.KeepaliveInterval = c07KA
 			n.Timers.Config.IdleHoldTimeAfterReset = c07ResetHold
+			for i := range n.AfiSafis {
+				n.AfiSafis[i].PrefixLimit.Config.MaxPrefixes = 1
+			}
 		},
 		// AddPeer forces treat-as-withdraw on; only a configuration file can switch it off
 		FileOnly: func(n *oc.Neighbor) { n.ErrorHandling.Config.TreatAsWithdraw = sc.treatAsWithdraw }})
@@ -87,7 +97,7 @@ func (sc *c07Scenario) Enabled(w *simWorld) []simEvent {
 	var ev []simEvent
 	add := func(op string) { ev = append(ev, simEvent{Op: op}) }
 	if b.connected() {
-		ops := []string{"ka", "upd", "upd-bad", "notif", "hdr-marker", "hdr-len", "hdr-type", "close"}
+		ops := []string{"ka", "upd", "upd2", "upd-bad", "notif", "hdr-marker", "hdr-len", "hdr-type", "close"}
 		if sc.m.St == "opensent" || !sc.m.Conn {
 			// a second OPEN on a connection (OpenConfirm, Established) is not an event the RFC
 			// lists for those states without the optional collision-detect attribute: not claimed
@@ -102,12 +112,14 @@ func (sc *c07Scenario) Enabled(w *simWorld) []simEvent {
 	}
 	add("conn")
 	add("wait1")
+	add("wait6")
 	if sc.nextDeadline() > 0 {
 		add("waitnext")
 	}
-	if sc.m.AdminDown {
+	if sc.m.AdminDown || sc.m.AdminPfx {
 		add("enable")
-	} else {
+	}
+	if !sc.m.AdminDown {
 		add("disable")
 	}
 	add("shutdown")
@@ -171,8 +183,9 @@ func (m *c07Model) toIdle(idle time.Duration) {
 	m.Conn = false
 	m.Hold, m.KA = 0, 0
 	m.Routes = 0
+	m.Routes2 = false
 	m.Idle = idle
-	if m.AdminDown {
+	if m.AdminDown || m.AdminPfx {
 		m.Idle = 0
 	}
 }
@@ -194,8 +207,7 @@ func (sc *c07Scenario) Apply(w *simWorld, e simEvent) {
 	hasSession := m.Conn && (m.St == "opensent" || m.St == "openconfirm" || m.St == "established")
 	switch e.Op {
 	case "conn":
-		wasConn := b.connected()
-		_ = wasConn
+		sc.tConn, sc.tLastKA, sc.tLastUpd = w.now(), -1, -1
 		b.connect()
 		sc.lastSeq = 0
 		switch {
@@ -253,6 +265,7 @@ func (sc *c07Scenario) Apply(w *simWorld, e simEvent) {
 			fail("NOTIF 5/3")
 		}
 	case "ka":
+		sc.tLastKA = w.now()
 		b.sendMsg(bgp.NewBGPKeepAliveMessage())
 		if !hasSession {
 			break
@@ -270,7 +283,35 @@ func (sc *c07Scenario) Apply(w *simWorld, e simEvent) {
 		case "established":
 			m.Hold = m.NegHold
 		}
+	case "upd2":
+		sc.tLastUpd = w.now()
+		// a second prefix: with max-prefixes 1 the limit is overrun once both prefixes are held
+		nlri, _ := bgp.NewIPAddrPrefix(netip.MustParsePrefix("10.10.2.0/24"))
+		nh, _ := bgp.NewPathAttributeNextHop(netip.MustParseAddr("10.0.0.1"))
+		attrs := []bgp.PathAttributeInterface{bgp.NewPathAttributeOrigin(0),
+			bgp.NewPathAttributeAsPath([]bgp.AsPathParamInterface{bgp.NewAs4PathParam(bgp.BGP_ASPATH_ATTR_TYPE_SEQ, []uint32{65001})}), nh}
+		b.sendMsg(bgp.NewBGPUpdateMessage(nil, attrs, []bgp.PathNLRI{{NLRI: nlri}}))
+		if !hasSession {
+			break
+		}
+		switch m.St {
+		case "opensent":
+			fail("NOTIF 5/1")
+		case "openconfirm":
+			fail("NOTIF 5/2")
+		case "established":
+			if m.Routes == 1 {
+				// RFC 4486: Cease / Maximum Number of Prefixes Reached; the peer stays down until
+				// it is administratively enabled again
+				m.AdminPfx = true
+				fail("NOTIF 6/1")
+			} else {
+				m.Hold = m.NegHold
+				m.Routes2 = true
+			}
+		}
 	case "upd", "upd-bad":
+		sc.tLastUpd = w.now()
 		nlri, _ := bgp.NewIPAddrPrefix(netip.MustParsePrefix("10.10.1.0/24"))
 		nh, _ := bgp.NewPathAttributeNextHop(netip.MustParseAddr("10.0.0.1"))
 		attrs := []bgp.PathAttributeInterface{bgp.NewPathAttributeOrigin(0),
@@ -288,7 +329,10 @@ func (sc *c07Scenario) Apply(w *simWorld, e simEvent) {
 		case "openconfirm":
 			fail("NOTIF 5/2")
 		case "established":
-			if e.Op == "upd" {
+			if e.Op == "upd" && m.Routes2 {
+				m.AdminPfx = true
+				fail("NOTIF 6/1")
+			} else if e.Op == "upd" {
 				m.Hold = m.NegHold
 				m.Routes = 1
 			} else if sc.treatAsWithdraw {
@@ -339,8 +383,11 @@ func (sc *c07Scenario) Apply(w *simWorld, e simEvent) {
 		if hasSession {
 			m.toIdle(c07IdleHold * time.Second)
 		}
-	case "wait1", "waitnext":
+	case "wait1", "wait6", "waitnext":
 		d := time.Second
+		if e.Op == "wait6" {
+			d = 6 * time.Second
+		}
 		if e.Op == "waitnext" {
 			d = sc.nextDeadline()
 		}
@@ -350,6 +397,7 @@ func (sc *c07Scenario) Apply(w *simWorld, e simEvent) {
 	case "disable":
 		w.must(w.s.DisablePeer(context.Background(), &api.DisablePeerRequest{Address: b.addr().String()}))
 		m.AdminDown = true
+		m.AdminPfx = false
 		switch m.St {
 		case "established":
 			exp.msgs = append(exp.msgs, "NOTIF 6/2")
@@ -362,6 +410,7 @@ func (sc *c07Scenario) Apply(w *simWorld, e simEvent) {
 	case "enable":
 		w.must(w.s.EnablePeer(context.Background(), &api.EnablePeerRequest{Address: b.addr().String()}))
 		m.AdminDown = false
+		m.AdminPfx = false
 		m.Idle = c07IdleHold * time.Second
 		if m.St != "idle" {
 			panic("model: admin down outside idle")
@@ -417,7 +466,7 @@ func (sc *c07Scenario) elapse(d time.Duration) {
 		idleFired := dec(&m.Idle)
 		holdFired := dec(&m.Hold)
 		kaFired := dec(&m.KA)
-		if idleFired && m.St == "idle" && !m.AdminDown && !m.Deleted {
+		if idleFired && m.St == "idle" && !m.AdminDown && !m.AdminPfx && !m.Deleted {
 			m.St = "active"
 		}
 		// the alphabet keeps keepalive ticks and hold expiry apart (4 s vs 9 s), except that
@@ -522,14 +571,18 @@ func (sc *c07Scenario) Check(w *simWorld, last *simEvent) {
 		}
 		repDown := rep.State.AdminState != api.PeerState_ADMIN_STATE_UP
 		realDown := p.AdminState() != adminStateUp
-		if repDown != realDown || realDown != m.AdminDown {
+		if repDown != realDown || realDown != (m.AdminDown || m.AdminPfx) {
 			w.violate(fmt.Sprintf("C07:reported-admin-state:%s", ev), "event %s: ListPeer reports admin state %v, the FSM has %v, the reference machine admin-down=%v", ev, rep.State.AdminState, p.AdminState(), m.AdminDown)
 		}
 	}
 	// 5. routing messages outside Established never change a RIB; in Established the Adj-RIB-In follows
 	n := len(w.adjInDump(p))
-	if n != m.Routes {
-		w.violate(fmt.Sprintf("C07:rib:%s", ev), "event %s: Adj-RIB-In holds %d routes, the reference machine expects %d (state %s)", ev, n, m.Routes, m.St)
+	want := m.Routes
+	if m.Routes2 {
+		want++
+	}
+	if n != want {
+		w.violate(fmt.Sprintf("C07:rib:%s", ev), "event %s: Adj-RIB-In holds %d routes, the reference machine expects %d (state %s)", ev, n, want, m.St)
 	}
 	if real != "established" && len(w.ribDump(w.s.globalRib)) != 0 {
 		w.violate("C07:rib-not-empty-outside-established", "Loc-RIB holds routes of a session that is not established")
@@ -538,7 +591,17 @@ func (sc *c07Scenario) Check(w *simWorld, last *simEvent) {
 
 func (sc *c07Scenario) Key(w *simWorld) string {
 	m := sc.m
-	return fmt.Sprintf("%+v|pruned=%v|%s", m, sc.pruned, w.stateKey())
+	clocks := ""
+	if m.Conn {
+		age := func(t time.Duration) time.Duration {
+			if t < 0 {
+				return -1
+			}
+			return w.now() - t
+		}
+		clocks = fmt.Sprintf("conn=%v ka=%v upd=%v", age(sc.tConn), age(sc.tLastKA), age(sc.tLastUpd))
+	}
+	return fmt.Sprintf("%+v|%s|pruned=%v|%s", m, clocks, sc.pruned, w.stateKey())
 }
 
 func TestVerif_C07_Sim(t *testing.T) {
